@@ -53,9 +53,11 @@ def gen_write(rng, p):
         return tag, rng.random() < 0.5, desc
     if k == "boolarr":
         i, n = desc[1], desc[2]
+        if n == 1 and "[" not in tag:
+            return None      # a BOOL array without an index is not an addressable element for writing
         if n == 1:
             return tag, rng.random() < 0.5, desc
-        if rng.random() < 0.7:
+        if True:
             # aligned range (the only kind the controller service can express)
             i = i // 32 * 32
             total_bits = 32 * lx._count(desc[3]["sym"].dims)
